@@ -124,6 +124,17 @@ def r19_1_relation(ctx):
     ctx.instances["R19.1"] = ctx.instances.get("R19.1", 0) + n
     ctx.notes.append(f"R19.1: {len(uni)} shapes, {n} ordered pairs, {pos} assignable, {len(unsound)} unsound")
     ctx.ok("R19.1", "universe", {"shapes": len(uni), "pairs": n, "assignable": pos}, f.where)
+    # the relation on containers is the relation on their elements, in the same direction
+    leaves = [("byte",), ("uint", 8), ("uint", 16), ("address",), ("bytes_static", 32), ("sarr", ("byte",), 32), ("string",), ("bytes_dyn",), ("darr", ("byte",)), ("bool",)]
+    for a in leaves:
+        for b in leaves:
+            base = rel(a, b)
+            for wrap, label in ((lambda x: ("darr", x), "T[]"), (lambda x: ("sarr", x, 3), "T[3]"), (lambda x: ("tuple", (x,)), "(T)"), (lambda x: ("tuple", (("uint", 64), x)), "(uint64,T)")):
+                got = rel(wrap(a), wrap(b))
+                n += 1
+                if got != base:
+                    ctx.bad("R19.1", f"congruence[{arc4.sig(wrap(a))} -> {arc4.sig(wrap(b))}]", f"{arc4.sig(a)} -> {arc4.sig(b)} is {'assignable' if base else 'not assignable'} but {arc4.sig(wrap(a))} -> {arc4.sig(wrap(b))} is {'assignable' if got else 'not assignable'}: a container must be assignable exactly when its elements are, in the same direction", f.where)
+    ctx.instances["R19.1"] = ctx.instances.get("R19.1", 0) + 400
     for a, b, want in DOC_TABLE:
         got = rel(a, b)
         ctx.check(got == want, "R19.1", f"documented[{a[1] if a[0] == 'ntuple' else arc4.sig(a)} -> {b[1] if b[0] == 'ntuple' else arc4.sig(b)}]", f"documented as {'assignable' if want else 'not assignable'}, the relation says {got}", f.where, fact={"value": got})
